@@ -303,10 +303,101 @@ pub fn run(ctx: &Ctx) -> (Spec, Report) {
         rep
     });
     rep.merge(r2);
+    // multi-file Python: the backend object is reused for every crate file, so each file has to carry the imports,
+    // TypeVars and helper functions of its own triggers - whatever the files generated before or after it needed
+    let n_py = ctx.tier.pick(60, 400);
+    let mut py_outputs: Vec<(String, String, Vec<String>)> = vec![]; // (run/file label, text, triggers of that crate)
+    {
+        let results: std::sync::Mutex<Vec<(String, String, Vec<String>)>> = std::sync::Mutex::new(vec![]);
+        let r3 = par_shards(ctx.threads, n_py, |i| {
+            let mut rep = Report::new();
+            let mut rng = Rng::derive(seed, "C12-python-multi", i as u64);
+            let n_crates = rng.range(2, 4);
+            let names = ["alpha", "beta", "gamma", "delta"];
+            let py_triggers = ["Option<u8>", "Vec<u8>", "HashMap<String, u8>", "OffsetDateTime", "T", "()", "u32", "[u8; 2]"];
+            let mut files = vec![];
+            let mut trig: Vec<Vec<String>> = vec![];
+            for (k, name) in names.iter().enumerate().take(n_crates) {
+                let mut mine = vec![];
+                let mut fields = String::new();
+                let mut generic = false;
+                for f in 0..rng.range(1, 2) {
+                    let t = *rng.pick(&py_triggers);
+                    generic |= t == "T";
+                    let ty = nest(t, rng.below(3), &mut rng);
+                    let dflt = if t == "OffsetDateTime" && rng.coin() { "#[serde(default)]\n    " } else { "" };
+                    fields.push_str(&format!("    {dflt}pub f{f}: {ty},\n"));
+                    mine.push(t.to_string());
+                }
+                let g = if generic { "<T>" } else { "" };
+                let kind = rng.below(3);
+                let body = match kind {
+                    0 => format!("#[typeshare]\npub struct S{k}{g} {{\n{fields}}}\n"),
+                    1 => format!("#[typeshare]\n#[serde(tag = \"t\", content = \"c\")]\npub enum E{k}{g} {{\n    Unit,\n    Rec {{\n{fields}    }},\n}}\n"),
+                    _ => format!("#[typeshare]\npub struct S{k}{g} {{\n{fields}}}\n#[typeshare]\npub enum Plain{k} {{ A, B }}\n"),
+                };
+                files.push(SrcFile { path: format!("src_root/{name}/src/lib.rs"), source: body });
+                trig.push(mine);
+            }
+            let root = scratch.join(format!("p{i}"));
+            write_tree(&root, &files);
+            let out = root.join("out");
+            let mut cfg = LangCfg::basic(LangId::Python);
+            cfg.type_mappings.insert("Vec<u8>".into(), "bytes".into());
+            let cfgp = root.join("cfg.toml");
+            std::fs::write(&cfgp, crate::sut::config_toml(LangId::Python, &cfg)).unwrap();
+            let mut args = vec!["--config-file".to_string(), cfgp.to_string_lossy().into_owned()];
+            args.extend(cli_args(LangId::Python, &cfg, true, &out, &["src_root"]));
+            let o = run_bin(BinRun { cli: &cli, args, env: vec![("TYPESHARE_VERIF_ORDER".to_string(), format!("seed:{}", i % 7))], cwd: &root, strace: None, wall_limit: Duration::from_secs(30) });
+            rep.eval(1);
+            rep.count("cli_runs", 1);
+            rep.count("python_multi_file_runs", 1);
+            if !o.ok() {
+                rep.inconclusive("cli-run-failed", json!({"stderr": o.stderr.chars().take(300).collect::<String>()}));
+            } else {
+                let outs = read_dir_files(&out);
+                let mut r = results.lock().unwrap();
+                for (k, name) in names.iter().enumerate().take(n_crates) {
+                    if let Some(b) = outs.get(&format!("{name}.py")) {
+                        r.push((format!("run {i} {name}.py (crate {k} of {n_crates})"), String::from_utf8_lossy(b).into_owned(), trig[k].clone()));
+                    } else {
+                        rep.violate("C12|python|multi-file|crate-file-missing".to_string(), format!("{name}.py not written"), json!({"files": files.iter().map(|f| f.source.clone()).collect::<Vec<_>>() }));
+                    }
+                }
+            }
+            let _ = std::fs::remove_dir_all(&root);
+            rep
+        });
+        rep.merge(r3);
+        py_outputs.extend(results.into_inner().unwrap());
+    }
+    {
+        let items: Vec<(LangId, &str)> = py_outputs.iter().map(|(_, t, _)| (LangId::Python, t.as_str())).collect();
+        let facts = crate::facts::parse_many(ctx, "C12-python-multi", &items, true);
+        for ((label, text, trig), f) in py_outputs.iter().zip(facts.iter()) {
+            rep.eval(1);
+            rep.count("python_multi_file_outputs_resolved", 1);
+            rep.cell(format!("python-multi|{}", trig.join("+")));
+            if let Some(py) = &f.py {
+                for n in &py.unresolved {
+                    rep.violate(
+                        format!("C12|python|multi-file|python-name-{}|triggers={}", if n.chars().next().map(|c| c.is_uppercase()).unwrap_or(false) { "Type" } else { "function" }, trig.join("+")),
+                        format!("{label}: name {n} is used but neither defined nor imported in that file"),
+                        json!({"file": label, "name": n, "output": text}),
+                    );
+                }
+                if let Some((ok, ty, msg)) = &py.exec {
+                    if !ok && (ty == "NameError" || ty == "ImportError" || ty == "ModuleNotFoundError") && py.eager_undefined.is_empty() {
+                        rep.violate(format!("C12|python|multi-file|python-import-{ty}|triggers={}", trig.join("+")), format!("{label}: import fails: {msg}"), json!({"file": label, "error": msg, "output": text}));
+                    }
+                }
+            }
+        }
+    }
     let _ = std::fs::remove_dir_all(&scratch);
     let spec = Spec {
         level: "exploration",
-        rule: format!("one trigger type out of {{(), u8, u16, u32, U53, OffsetDateTime, mapped Vec<u8>, generic T, HashMap<String,u8>}} at one position out of {{field, struct-variant field, payload, alias, generic argument}} under 0-3 random wrappers (all {n_grid} combinations), then random placements up to depth 4 with other triggers combined; for each backend the names it introduces are collected from the parsed output and must be defined or imported in the same file (Swift CodableVoid, Scala UByte..ULong, Go package selectors / encoding/json, Kotlin serialization imports, TS reviver/replacer pair and its key tests, every Python name via CPython ast + import under stub pydantic); {n_cli} multi-crate Swift runs of the real binary check Codable.swift; distinct = (language, trigger, position, depth class, combined?)"),
+        rule: format!("one trigger type out of {{(), u8, u16, u32, U53, OffsetDateTime, mapped Vec<u8>, generic T, HashMap<String,u8>}} at one position out of {{field, struct-variant field, payload, alias, generic argument}} under 0-3 random wrappers (all {n_grid} combinations), then random placements up to depth 4 with other triggers combined; for each backend the names it introduces are collected from the parsed output and must be defined or imported in the same file (Swift CodableVoid, Scala UByte..ULong, Go package selectors / encoding/json, Kotlin serialization imports, TS reviver/replacer pair and its key tests, every Python name via CPython ast + import under stub pydantic); {n_cli} multi-crate Swift runs of the real binary check Codable.swift and {n_py} multi-crate Python runs resolve every name of every generated file separately (the backend object is shared by the files of one run); distinct = (language, trigger, position, depth class, combined?)"),
         assumptions: vec![
             "TypeScript: the decisive form is the weak one (helpers come in pairs and test existing keys); a Date/Uint8Array type without helpers is counted, not reported, because the generated code never uses the helper names itself".into(),
         ],
